@@ -66,6 +66,10 @@ var _ ToChunker = CompressedChunk{}
 
 // NewCompressedChunk creates a CompressedChunk
 func NewCompressedChunk(h hash.Hash, buff []byte) (CompressedChunk, error) {
+	if len(buff) < checksumSize {
+		// a corrupted length field can hand us fewer bytes than the trailing checksum
+		return CompressedChunk{}, errors.New("checksum error: compressed chunk too short")
+	}
 	dataLen := uint64(len(buff)) - checksumSize
 
 	chksum := binary.BigEndian.Uint32(buff[dataLen:])
